@@ -93,6 +93,27 @@ impl Cache {
     pub open spec fn rw(&self, w: World) -> bool {
         self.rw_cfg(w.cfg())
     }
+
+    /// Every shard directory is configured: a read-write cache directory, or the root lies under a read-only root.
+    pub open spec fn configured_cfg(&self, cfg: (Set<PathV>, Set<PathV>)) -> bool {
+        under_ro_of(cfg.1, self.spec_root()) || forall|i: usize| i < self.spec_n() ==> #[trigger] cfg.0.contains(shard_dir_of(self.spec_root(), i))
+    }
+}
+
+pub proof fn lemma_shard_configured(c: Cache, w: World, i: usize)
+    requires
+        c.configured_cfg(w.cfg()),
+        i < c.spec_n(),
+    ensures
+        w.configured_dir(shard_dir_of(c.spec_root(), i)),
+{
+    assert(w.cfg().0 == w.cache_dirs && w.cfg().1 == w.ro_roots);
+    if under_ro_of(w.ro_roots, c.spec_root()) {
+        let r = choose|r: PathV| #[trigger] w.ro_roots.contains(r) && r.is_prefix_of(c.spec_root());
+        assert(r.is_prefix_of(shard_dir_of(c.spec_root(), i)));
+    } else {
+        assert(w.cfg().0.contains(shard_dir_of(c.spec_root(), i)));
+    }
 }
 
 impl Shard {
@@ -362,6 +383,10 @@ pub open spec fn sharded_frame(old: World, fin: World, root: PathV, n: usize, na
                 ('C12 C11 C05 C18:miss-means-absent-from-both-candidates',
                  'r.is_ok() && r.unwrap().is_none() ==> !old(w).files.contains_key(%s) && !old(w).files.contains_key(%s)' % (P1, P2)),
                 ('C11 C18:present-entry-is-found', 'r.is_ok() && (old(w).files.contains_key(%s) || old(w).files.contains_key(%s)) ==> r.unwrap().is_some()' % (P1, P2)),
+                ('C16:success-means-the-name-is-a-valid-key', 'r.is_ok() ==> valid_key(str_bytes(key.name))'),
+                ('C01:a-hit-holds-bytes-some-writer-supplied-for-exactly-this-key',
+                 'r.is_ok() && r.unwrap().is_some() && self.configured_cfg(old(w).cfg()) ==> final(w).inodes.contains_key(r.unwrap().unwrap().ino()) '
+                 '&& final(w).supplied.contains((str_bytes(key.name), final(w).inodes[r.unwrap().unwrap().ino()].content))'),
             ]
         else:
             ens += [
@@ -372,7 +397,8 @@ pub open spec fn sharded_frame(old: World, fin: World, root: PathV, n: usize, na
                 ('C05 C11 C18:absence-is-reported-as-false', 'r == Ok::<bool, Error>(false) ==> !old(w).files.contains_key(%s) && !old(w).files.contains_key(%s)' % (P1, P2)),
             ]
         g.contract(requires=[('', 'old(w).inv() && self.wf()')], ensures=ens)
-        g.body_start('broadcast use group_sharded;\n        proof { lemma_shard_ids(key.hash, key.secondary_hash, self.spec_n()); }')
+        g.body_start('broadcast use group_sharded;\n        proof { lemma_shard_ids(key.hash, key.secondary_hash, self.spec_n()); '
+                     'if self.configured_cfg(old(w).cfg()) { lemma_shard_configured(*self, *old(w), %s as usize); lemma_shard_configured(*self, *old(w), %s as usize); } }' % (S1, S2))
         g.insert_after('let shard = self . shard ( h1 ) ;', '\n        proof { lemma_child(self.spec_root(), fmt_shard(h1)); lemma_child(self.spec_root(), fmt_shard(h2)); '
                        'assert(shard.spec_base() == shard_dir_of(self.spec_root(), h1)); }')
 
